@@ -78,6 +78,20 @@ func genSeed(r *rand.Rand) (*gen.Module, []byte) {
 	return m, m.Binary()
 }
 
+// genSeedAny draws from every instruction family the generator knows (v128, block parameters with taken back
+// edges, atomics, tail calls, many parameters/results/locals); ext: the module needs the features beyond 2.0.
+func genSeedAny(r *rand.Rand, i int) (bin []byte, ext bool) {
+	cfg := gen.Config{MaxFuncs: 1 + r.Intn(4), MaxDepth: 2 + r.Intn(3), MaxStmts: 1 + r.Intn(5), Floats: r.Intn(3) > 0, Memory: true, Imports: r.Intn(3), Bulk: r.Intn(2) == 0}
+	cfg = gen.RandomProfile(r, cfg)
+	if i%2 == 0 {
+		// every combination of the families in turn (a defect that needs two of them together - a v128 that is a
+		// loop parameter - is rare when each family is drawn independently)
+		k := i / 2
+		cfg.SIMD, cfg.BlockParams, cfg.Atomics, cfg.TailCalls, cfg.Dense = k&1 != 0, k&2 != 0, k&4 != 0, k&8 != 0, true
+	}
+	return gen.Generate(r, cfg).Binary(), cfg.NeedsExtendedFeatures()
+}
+
 func u32(v uint64) []byte { return leb128.EncodeUint32(uint32(v)) }
 
 // padded re-encodes v in exactly n bytes (non-canonical when n is larger than needed; n may exceed 5).
@@ -509,9 +523,9 @@ func fuzz(r *rand.Rand, par, n int, only string) {
 	}
 	if only != "fuzz" {
 		// by-construction-valid modules: must be accepted under v2 and v2x by both engines
-		ngen := total / 10
+		ngen := total / 5
 		for i := 0; i < ngen; i++ {
-			_, bin := genSeed(r)
+			bin, ext := genSeedAny(r, i)
 			note := "valid"
 			if i%3 == 0 {
 				// custom sections may appear anywhere after the header, with any name and any payload - including none
@@ -522,7 +536,11 @@ func fuzz(r *rand.Rand, par, n int, only string) {
 				bin = append(append([]byte{}, bin...), sec...) // as the LAST section of the module
 				note = fmt.Sprintf("valid + trailing custom section %q with %d payload bytes", name, len(payload))
 			}
-			c := mkCase(fmt.Sprintf("gen-%d", i), "gen-valid", []string{"v2", "v2x"}[i%2], bin, note)
+			feat := []string{"v2", "v2x"}[i%2]
+			if ext {
+				feat = "v2x"
+			}
+			c := mkCase(fmt.Sprintf("gen-%d", i), "gen-valid", feat, bin, note)
 			c.MustAccept = true
 			add(c)
 		}
